@@ -7,6 +7,8 @@ for d in "$@"; do
   out=$(tools/try_patch.sh seeded/$d/patch.diff $p 2>&1)
   nv=$(echo "$out" | grep -c "^VIOLATION")
   mf=$(echo "$out" | grep -c "MACHINERY")
+  pf=$(echo "$out" | grep -c "PATCH-FAILED")
+  if [ "$pf" -gt 0 ]; then echo "$d check=$p PATCH-FAILED" >> "$LOG"; continue; fi
   echo "$d check=$p violations=$nv machinery=$mf $(echo "$out" | grep -E 'done:' | tail -1 | cut -c1-90)" >> "$LOG"
 done
 echo "REGRESSION-DONE" >> "$LOG"
